@@ -63,6 +63,12 @@ def fault_atoms():
         [["wfail", 3]],
         [["send_bad", "value", "inline"]],
         [["send_bad", "struct", "inline"]],
+        # the caller-supplied-header entry point holds a message nothing can encode at all
+        [["send_bad", "unregistered", "hdr"]],
+        [["net", "refuse", 0.0], ["fin"], ["q"], ["send_bad", "unregistered", "hdr"],
+         ["send", "zone_ctrl", "idem", "inline"]],
+        [["net", "refuse", 0.0], ["fin"], ["q"], ["send_bad", "struct", "hdr"],
+         ["send_bad", "value", "hdr"]],
         [["sub_raise", "msg", 1], ["status"]],
         [["sub_raise", "conn", 1]],
         [["rst", "timeout"]], [["rst", "oserror"]],
